@@ -86,6 +86,24 @@ pub const CARRIERS: &[(&str, &str, &str)] = &[
     ("gen.zip-map", "int", "zip(range(4).to_generator().map(v_cb), count().to_generator()).to_array().len()"),
     ("gen.chain-map", "int", "(range(3).to_generator().map(v_cb) + range(2).to_generator().map(v_cb)).to_array().len()"),
     ("gen.windows-map", "int", "range(5).to_generator().map(v_cb).windows(2).len()"),
+    // callbacks that use no search budget themselves, so that a search limit lands inside the built-in
+    ("plain.gen-windows", "int", "range(14).to_generator().map((v_x: int)->{v_x + 1}).windows(3).len()"),
+    ("plain.gen-windows-last", "int", "range(9).to_generator().windows(2).last().len()"),
+    ("plain.gen-chunks", "int", "range(14).to_generator().map((v_x: int)->{v_x + 1}).chunks(3).len()"),
+    ("plain.seq-cmp", "int", "cmp(range(14).map((v_x: int)->{v_x + 1}).to_array(), range(1, 14).to_array() + [99])"),
+    ("plain.seq-cmp-equal", "int", "cmp(range(14).map((v_x: int)->{v_x + 1}), range(1, 15).to_array())"),
+    ("plain.seq-lt", "bool", "range(14).map((v_x: int)->{v_x + 1}).to_array() < range(1, 14).to_array() + [99]"),
+    ("plain.seq-eq", "bool", "range(14).map((v_x: int)->{v_x + 1}).to_array() == range(1, 15).to_array()"),
+    ("plain.seq-sort-of-seqs", "int", "[range(1, 15).to_array(), range(14).map((v_x: int)->{v_x + 1}).to_array(), range(1, 14).to_array() + [0]].sort().get(0).get(13)"),
+    ("plain.seq-nth-back", "int", "range(14).map((v_x: int)->{v_x + 1}).nth(0 - 2, (v_x: int)->{v_x < 4}).value()"),
+    ("plain.seq-last", "int", "range(14).map((v_x: int)->{v_x + 1}).last((v_x: int)->{v_x < 4}).value()"),
+    ("plain.gen-skip-until", "int", "range(14).to_generator().skip_until((v_x: int)->{v_x > 9}).len()"),
+    ("plain.gen-filter", "int", "range(14).to_generator().filter((v_x: int)->{v_x > 9}).len()"),
+    ("plain.gen-distinct", "int", "range(14).to_generator().map((v_x: int)->{v_x % 5}).distinct().len()"),
+    ("plain.seq-contains", "bool", "range(14).map((v_x: int)->{v_x + 1}).contains(13)"),
+    ("plain.seq-count", "int", "range(14).map((v_x: int)->{v_x + 1}).count((v_x: int)->{v_x > 9})"),
+    ("plain.seq-hash", "bool", "hash(range(14).map((v_x: int)->{v_x + 1}).to_array()) == hash(range(1, 15).to_array())"),
+    ("plain.seq-to_str", "int", "range(14).map((v_x: int)->{v_x + 1}).to_array().to_str().len()"),
     ("gen.chunks-map", "int", "range(5).to_generator().map(v_cb).chunks(2).len()"),
     ("gen.enumerate-map", "int", "range(4).to_generator().map(v_cb).enumerate().to_array().len()"),
     ("gen.take-skip-map", "int", "count().to_generator().map(v_cb).skip(1).take(3).to_array().len()"),
